@@ -42,6 +42,11 @@ def run(chk, repo):
         check_adapter(chk, "C03-T4", repo, L.ev, key)
     from ..shapes_rules import link_tables
     link_tables(chk, repo, L, "C03")
+    from .common_rules import record_type_dispatch, to_dict_contract, variable_conversion
+    chk.rule("C03-T6", "record-type dispatch, to_dict contract, Variable conversion", 5)
+    record_type_dispatch(chk, repo, "C03-T6")
+    to_dict_contract(chk, repo, "C03-T6")
+    variable_conversion(chk, repo, "C03-T6")
     # T5: header attributes present exactly when the field is non-blank (sentinel agreement, shared with C20-P2/P4)
     from .c20 import header_sentinels
     chk.rule("C20-P2", "C03-T5: header transformers test the blank sentinel of their field's codec", 4)
